@@ -146,6 +146,36 @@ theorem RecOK.modify_off {now : Int} {i : Nat} {a : Array α} (h : ArrAll (RecOK
     ArrAll (RecOK R now) (a.modify i f) :=
   ArrAll.modify h i (fun x _ ok => ⟨by rw [hh]; exact ok.1, fun e => by rw [hr] at e; cases e⟩)
 
+/-- a change of some object `j` that keeps flag, history and value keeps the weak invariant too -/
+theorem OKexc.set_same {now : Int} {i j : Nat} {a : Array α} (h : OKexc R now i a) {x : α} (hx : a[j]? = some x) {y : α}
+    (hr : R.recording y = R.recording x) (hh : R.hist y = R.hist x) (hv : R.val y = R.val x) :
+    OKexc R now i (a.setIfInBounds j y) := by
+  intro k z hz
+  rw [Array.getElem?_setIfInBounds] at hz
+  split at hz
+  · rename_i e; subst e
+    split at hz
+    · cases hz
+      have := h j x hx
+      exact ⟨by rw [hh]; exact this.1, fun hne => ⟨by rw [hh]; exact this.1, by rw [hr, hh, hv]; exact (this.2 hne).2⟩⟩
+    · cases hz
+  · exact h k z hz
+
+theorem OKexc.modify_same {now : Int} {i j : Nat} {a : Array α} (h : OKexc R now i a) {f : α → α}
+    (hr : ∀ x, R.recording (f x) = R.recording x) (hh : ∀ x, R.hist (f x) = R.hist x) (hv : ∀ x, R.val (f x) = R.val x) :
+    OKexc R now i (a.modify j f) := by
+  intro k z hz
+  rw [Array.getElem?_modify] at hz
+  split at hz
+  · rename_i e; subst e
+    cases ha : a[j]? with
+    | none => rw [ha] at hz; cases hz
+    | some x =>
+      rw [ha] at hz; cases hz
+      have := h j x ha
+      exact ⟨by rw [hh]; exact this.1, fun hne => ⟨by rw [hh]; exact this.1, by rw [hr, hh, hv]; exact (this.2 hne).2⟩⟩
+  · exact h k z hz
+
 theorem ArrAll.mono {β : Type} {P Q : β → Prop} {a : Array β} (h : ArrAll P a) (hpq : ∀ x, P x → Q x) : ArrAll Q a :=
   fun i x hx => hpq x (h i x hx)
 
